@@ -227,6 +227,7 @@ func runC01(c *Check, a *Analysis) {
 	// ---- copy before decode / use after release (shared engines)
 	ruleClientCopyBeforeDecode(c, a, "R-COPY-BEFORE-DECODE")
 	ruleUseAfterRelease(c, a, "R-UAR", uarClient)
+	ruleSeqAdvanceOnPath(c, a, "R-SEQ-ADVANCE-PATH")
 	// a Call recycled while a response for it can still be processed receives another call's reply
 	ruleRecycle(c, a, computeCompletion(p), "R-RECYCLE")
 }
